@@ -141,7 +141,9 @@ func (a *orValueLoader) literal(lex lexeme.LexEvent) {
 		})
 	} else {
 		root := schema.NewMixedNode(a.node.BasisLexEventOfSchemaForNode())
-		root.AddConstraint(constraint.NewType(val, jschema.RuleASTNodeSourceManual))
+		// The value as it is written, like in the "type" rule: the compiler
+		// unquotes it, and "\"string\"" must not turn into a valid type name.
+		root.AddConstraint(constraint.NewType(lex.Value(), jschema.RuleASTNodeSourceManual))
 
 		typ := schema.New()
 		typ.SetRootNode(root)
